@@ -15,7 +15,7 @@ CLAIMS = {
          "Trusted: as C01; both Roundup readings (v3.0 wording, v3.1 Appendix A) are evaluated and their agreement on the domain is re-measured every run.",
          "DESIGN.md section 6, C02"),
  "C03": ("exhaustive enumeration (effective metrics x temporal; thorough: full 1.1e10 product) + seeded sampling + rapid PBT vs exact-rational model",
-         "Layer 1 enumerates all 33,177,600 effective-metric x temporal objects (every Modified metric defined, base metrics disagreeing) against the exact environmental equations; layer 2 checks the fall-back resolution on the version x base x environmental product (16,000,000 distinct seeded points quick, all 11,466,178,560 thorough); layer 3 sends rapid-generated vectors through the environmental decoder (64k / 1M); layer 4 decodes, for every version x base combination, the vector whose Modified metrics restate the base metrics and its one-step variants. A mismatch on a reused object that a fresh object does not reproduce is reported as an assign / score / assign / score history.",
+         "Layer 1 enumerates all 33,177,600 effective-metric x temporal objects (every Modified metric defined, base metrics disagreeing) against the exact environmental equations; layer 2 checks the fall-back resolution on the version x base x environmental product (16,000,000 distinct seeded points quick, all 11,466,178,560 thorough); layer 3 sends rapid-generated vectors through the environmental decoder (64k / 1M); layer 4 decodes, for every version x base combination, the vector whose Modified metrics restate the base metrics and its one-step variants; layer 5 enumerates, on one object, every two-field transition (all field pairs x start values x end values, three contexts). A mismatch on a reused object that a fresh object does not reproduce is reported as an assign / score / assign / score history.",
          "Trusted: as C01 plus the reference resolution (Modified X -> base value, MS selecting formula and PR table). Objects in layers 1-2 are built from the exported constructor and exported-field assignment, which the property names as an observation point.",
          "DESIGN.md section 6, C03"),
  "C04": ("exhaustive enumeration + rapid PBT vs exact-rational v2 model with admissible-tenth sets",
@@ -63,7 +63,7 @@ CLAIMS = {
          "Only observable state (exported fields, query results, report structs) is compared. Histories are sampled, not exhausted.",
          "DESIGN.md section 6, C15"),
  "C16": ("PBT of concurrent workloads under the Go race detector + sequential-equivalence oracle",
-         "The test binary is built with -race. Every process starts with a cold-start storm (16 goroutines issuing identical decode / query / report / export operations before anything has warmed lazily initialised state), then rapid workloads (pool of valid and invalid vectors, 2-16 goroutines x up to 50 operations on own and shared objects — shared objects are freshly decoded, decoded then assigned, or built from fields, always finished before the goroutines start —, 12 language tags, 9 templates incl. conflicting defines and invalid ones, held export readers, GOMAXPROCS 2/4/16, generated yield points) run concurrent-first; the race runtime's log must not grow and every result must equal the sequential result computed afterwards on the same objects. 16 processes; 1,600 workloads quick, 24,000 thorough. A process killed by the runtime (concurrent map access) is reported with the workload that was running.",
+         "The test binary is built with -race. Every process starts with a cold-start storm (16 goroutines issuing identical decode / query / report / export operations before anything has warmed lazily initialised state), then rapid workloads (pool of valid and invalid vectors, 2-16 goroutines x up to 50 operations on own and shared objects — shared objects are freshly decoded, decoded then assigned, or built from fields, always finished before the goroutines start —, 12 language tags, 9 templates incl. conflicting defines and invalid ones, held export readers, GOMAXPROCS 2/4/16, generated yield points) run concurrent-first; the race runtime's log must not grow and every result must equal the sequential result computed afterwards on the same objects. A pair hammer runs every unordered pair of 67 scope-changed environmental vectors with distinct modified impact sub-scores (per version) as a workload of 16 goroutines calling Score() alternately on the two shared objects in a tight loop (400 calls each quick, 20,000 thorough); the set of distinct answers per object must be what it is sequentially. 16 processes; 1,600 workloads quick, 24,000 thorough. A process killed by the runtime (concurrent map access) is reported with the workload that was running.",
          "Schedules are sampled, not enumerated: the harness does not own the Go scheduler. The race detector supplies the order-independent part (happens-before races are reported whenever both accesses execute). A bug that needs one specific interleaving and is invisible to the race detector could be missed.",
          "DESIGN.md section 6, C16"),
  "C17": ("complete one-metric sweep + rapid PBT vs hand-written wiring table",
